@@ -1,5 +1,6 @@
 import SaphyrVerif.Model.De
 import SaphyrVerif.Model.Entry
+import SaphyrVerif.Model.Tls
 /-!
 Model for C16 (locations).
 
@@ -14,6 +15,18 @@ Model for C16 (locations).
   on top of the cursor of `Model/De.lean`, as a wrapper type language `STy` around `De.deser`
   (the containers that may hold span-carrying children are mirrored here: `Vec`, map with untyped
   keys, derived struct, option, and the untyped tree whose every node is span-carrying).
+* Part C (inside Part B) — the fallback location of Serde's static error constructors
+  (`de_error.rs`: `MISSING_FIELD_FALLBACK`, `maybe_attach_fallback_location`; the cell itself and its guards
+  are the subject of `Model/Tls.lean`).  `deserS` takes the content of the cell as a parameter `fb`: by
+  C15 `fallback_restored` / `value_guard_invisible_outside` every guard is scoped, so what the cell holds
+  while a node is read is a function of the accesses enclosing the node.  The two accesses install it:
+  `SA::next_element_seed` and — since the repair of `C16-static-error-at-map-value-reported-at-key` —
+  `MA::next_value_seed` set it to the node's `reference_location` (the use site) for the time the element /
+  value is read; the span-carrying wrapper and `Option` leave it alone; a top-level call starts with an
+  empty cell (`FallbackScopeGuard`).  The type `nonzero` (`std::num::NonZero*`) is the consumer that raises
+  such an error at the node itself: `invalid_value` for 0.  NOT tracked (location 0, compared without
+  location): static errors raised by the leaf types of `Model/De.lean` and the container-level
+  `missing_field` (the cell then holds the key guard's location, which `KeyStep` does not carry).
 -/
 namespace SaphyrVerif.Locs
 open SaphyrVerif SaphyrVerif.Scalars SaphyrVerif.Pump SaphyrVerif.De SaphyrVerif.Budget
@@ -229,6 +242,9 @@ inductive STy where
   | map (v : STy)
   | struct (fields : List (String × STy))
   | treeInner
+  /-- `std::num::NonZeroU8 … NonZeroI64`: `deserialize_u8(NonZeroVisitor)` …, whose `visit_*` rejects 0 with the
+  static constructor `Error::invalid_value(Unexpected::Unsigned(0), &self)` — an error without location -/
+  | nonzero (signed : Bool) (bits : Nat)
 
 inductive SVal where
   | leaf (v : Val)
@@ -249,6 +265,11 @@ def spannedLocs (c : Cur) : R (Loc × Loc) :=
   | .ok (some ev) c => .ok (c.refLoc, ev.loc) c
   | .ok none c => .ok (c.refLoc, c.lastLoc) c
 
+/-- A static constructor of `impl serde::de::Error for Error` (`invalid_type`, `invalid_value`,
+`unknown_variant`, `unknown_field`, `missing_field`): the error is built with `Location::UNKNOWN` and
+`maybe_attach_fallback_location` gives it what the cell holds (`None` and `Some(UNKNOWN)` attach nothing). -/
+def staticErr (kind : String) (cell : Option Loc) : DErr := ⟨kind, Tls.effLoc cell, 0⟩
+
 /-- missing fields of a derived struct: `Option` fields default to `None` -/
 def structFinishS (fields : List (String × STy)) (got : List (String × SVal)) (c : Cur) : R SVal :=
   let rec fill (fs : List (String × STy)) (acc : List (String × SVal)) : Except DErr (List (String × SVal)) :=
@@ -267,10 +288,11 @@ def structFinishS (fields : List (String × STy)) (got : List (String × SVal)) 
 
 mutual
 
-/-- `T::deserialize(YamlDeserializer)` for the wrapper types -/
-def deserS : Nat → Cfg → STy → Cur → R SVal
-  | 0, _, _, c => .err ⟨"OutOfFuel", 0, 0⟩ c
-  | fuel + 1, cfg, sty, c =>
+/-- `T::deserialize(YamlDeserializer)` for the wrapper types; `fb` = what the fallback cell holds while
+this node is read -/
+def deserS : Nat → Cfg → Option Loc → STy → Cur → R SVal
+  | 0, _, _, _, c => .err ⟨"OutOfFuel", 0, 0⟩ c
+  | fuel + 1, cfg, fb, sty, c =>
     match sty with
     | .leaf t =>
       match deser (fuel + 1) cfg t false false c with
@@ -280,7 +302,8 @@ def deserS : Nat → Cfg → STy → Cur → R SVal
       match spannedLocs c with
       | .err e c => .err e c
       | .ok (referenced, defined) c =>
-        match deserS fuel cfg t c with
+        -- `SpannedMapAccess` hands out the inner deserializer as it is: no guard
+        match deserS fuel cfg fb t c with
         | .err e c => .err e c
         | .ok v c => .ok (.spanned referenced defined v) c
     | .option t =>
@@ -293,12 +316,12 @@ def deserS : Nat → Cfg → STy → Cur → R SVal
           | .err e c => .err e c
           | .ok _ c => .ok .none c
         else
-          match deserS fuel cfg t c with
+          match deserS fuel cfg fb t c with
           | .err e c => .err e c
           | .ok v c => .ok (.some v) c
       | .ok (some (.mapEnd _)) c | .ok (some (.seqEnd _)) c => .ok .none c
       | .ok (some _) c =>
-        match deserS fuel cfg t c with
+        match deserS fuel cfg fb t c with
         | .err e c => .err e c
         | .ok v c => .ok (.some v) c
     | .seq t => deserSeqS fuel cfg t c
@@ -316,6 +339,12 @@ def deserS : Nat → Cfg → STy → Cur → R SVal
       | .ok (some (.mapStart ..)) c => deserMapS fuel cfg (.inl (.spanned .treeInner)) c
       | .ok (some (.seqEnd l)) c => .err ⟨"UnexpectedSequenceEnd", l, 0⟩ c
       | .ok (some (.mapEnd l)) c => .err ⟨"UnexpectedMappingEnd", l, 0⟩ c
+    | .nonzero signed bits =>
+      -- `deserialize_u8(NonZeroVisitor)`: the integer is read as for the plain type, `visit_u8(0)` is refused
+      match deser (fuel + 1) cfg (.int signed bits) false false c with
+      | .err e c => .err e c
+      | .ok (.int i) c => if i == 0 then .err (staticErr "invalid_value" fb) c else .ok (.leaf (.int i)) c
+      | .ok v c => .ok (.leaf v) c
 
 /-- `deserialize_seq` with a `Vec<T>` visitor (mirror of `De.deserSeqLike`, `inl` shape) -/
 def deserSeqS : Nat → Cfg → STy → Cur → R SVal
@@ -367,7 +396,8 @@ def seqElemsS : Nat → Cfg → STy → Cur → List SVal → R (List SVal)
     | .ok (some ev) c =>
       let defined := ev.loc
       let ref := c.refLoc
-      match deserS fuel cfg t c with
+      -- `let _missing_field_guard = MissingFieldLocationGuard::new(reference_location)`
+      match deserS fuel cfg (some ref) t c with
       | .err e c => .err (attachAlias e ref defined) c
       | .ok v c => seqElemsS fuel cfg t c (acc ++ [v])
 
@@ -451,7 +481,8 @@ def nextValueS : Nat → Cfg → STy → Cur → MA → R (SVal × MA)
       let defined := match events[0]? with
         | some e => e.loc
         | none => 0
-      match deserS fuel cfg vt rc with
+      -- `let _value_guard = MissingFieldLocationGuard::new(reference_location)`
+      match deserS fuel cfg (some ref) vt rc with
       | .err e _ => .err (attachAlias e ref defined) c
       | .ok v rc' =>
         match rc'.peek with
@@ -465,7 +496,8 @@ def nextValueS : Nat → Cfg → STy → Cur → MA → R (SVal × MA)
           | some e => e.loc
           | none => c.lastLoc
         let ref := c.refLoc
-        match deserS fuel cfg vt c with
+        -- `let _value_guard = MissingFieldLocationGuard::new(reference_location)`
+        match deserS fuel cfg (some ref) vt c with
         | .err e c => .err (attachAlias e ref defined) c
         | .ok v c => .ok (v, m) c
 
@@ -474,7 +506,8 @@ end
 /-- `with_deserializer_from_str_with_options` with a span-carrying target -/
 def fromSingleS (cfg : Cfg) (sty : STy) (p : Pump) (items : List RawItem) : Except DErr SVal :=
   let c := Cur.live p items
-  match deserS (Entry.fuelFor items.length) cfg sty c with
+  -- `with_document_scope`: `FallbackScopeGuard::enter()` empties the cell
+  match deserS (Entry.fuelFor items.length) cfg none sty c with
   | .err e c =>
     let syn := match c with | .live p _ => p.synthesizedNull | _ => false
     if syn then .error ⟨"Eof", c.lastLoc, 0⟩ else .error e
